@@ -106,6 +106,7 @@ VERIF_TARGET(c44_balances, nullptr, 96, 1100,
 {
     SetMockTime(REGTEST_GENESIS_TIME + 3600);
     ChainSimOpts o;
+    o.immediate_signals = false; // wallet callbacks on the scheduler thread, as in production (see kits/walletsim.h)
     auto simp = std::make_unique<ChainSim>(o);
     ChainSim& sim = *simp;
     const bool attach_late = s.chance(128);
@@ -146,7 +147,7 @@ VERIF_TARGET(c44_balances, nullptr, 96, 1100,
         st.steps++;
         checks++;
         VCHECK(diff.empty(), "c44.balance-vs-ledger", where, diff, "tip-height", L.tip_height, "mempool", L.mempool.size(), "ledger: trusted", L.trusted, "pending", L.untrusted_pending,
-               "immature", L.immature, "dead-floating", fl.dead.size(), "abandoned", ab);
+               "immature", L.immature, "dead-floating", fl.dead.size(), "abandoned", ab, "| history:", st.sample);
         if (L.untrusted_pending > 0) f_untrusted = true;
         if (L.immature > 0) f_immature = true;
         for (auto& [op, c] : L.coins) if (c.depth == 0 && c.trusted) f_trusted_pending = true;
